@@ -126,6 +126,8 @@ JudgeFinish(s0, e) ==
              ELSE IF e.returned /\ ~e.lens_ok THEN D("lengths")
              \* spec/SolverForms.tla predicts whether the reduction substitutes a copy variable away
              ELSE IF e.alias_pred # "na" /\ e.alias_pred # e.alias_obs THEN D("alias_substitution")
+             \* spec/SolverFunctions.tla predicts that the registered function answers the call
+             ELSE IF e.fn_pred # "na" /\ e.fn_pred # e.fn_obs THEN D("function_resolution")
              ELSE Ok
     IN Worse(p, c)
 
